@@ -12,7 +12,8 @@ class CallMixin:
     def e_Call(self, node, st):
         f = node.func
         starred = any(isinstance(a, ast.Starred) for a in node.args) or any(k.arg is None for k in node.keywords)
-        if starred and not (isinstance(f, ast.Name) and f.id in st.env and st.env[f.id].ty.key in self.call_handlers):
+        if starred and not (isinstance(f, ast.Name) and f.id in st.env and st.env[f.id].ty.key in self.call_handlers) \
+                and not (isinstance(f, ast.Attribute) and self.dotted(f) in self.global_calls) and not (isinstance(f, ast.Name) and self.mod.imports.get(f.id) in self.global_calls):
             raise Unsupported("star-args in call", node)
         if isinstance(f, ast.Call) and isinstance(f.func, ast.Name) and f.func.id == "type" and len(f.args) == 1 and not node.args:
             # type(x)(): a new object of x's class (its fields are whatever that class's __init__ sets: unconstrained here)
